@@ -275,6 +275,16 @@ func propC06(c *ctx) error {
 			tc{`<a :with="p := ${'1'}` + sep + `x := ${'2'}` + sep + `q := ${x}" :text="${p}|${x}|${q}">o</a><b :text="${x}">o</b>`, `<a>1|2|d</a><b>d</b>`}, // (values are evaluated in the scope outside the element)
 			tc{`<div :with="x := ${'outer'}"><a :with="k := ${1}` + sep + `x := ${'inner'}"><i :text="${x}${k}">o</i></a><i :text="${x}">o</i></div>`, `<div><a><i>inner1</i></a><i>outer</i></div>`})
 	}
+	// a `with` whose value mentions the very name it binds (or a name the same element rebinds by `range`) is evaluated ONCE,
+	// in the scope outside the element — also when the element carries a condition and / or a loop and is therefore visited
+	// more than once by the renderer
+	tcs = append(tcs,
+		tc{`<a :with="x := ${x + '1'}" :if="${1 == 1}" :text="${x}">o</a><b :text="${x}">o</b>`, `<a>d1</a><b>d</b>`},
+		tc{`<a :with="x := ${x + '1'}" :range="_, y : ns" :text="${x}">o</a>`, `<a>d1</a><a>d1</a>`},
+		tc{`<a :with="x := ${x + '1'}" :if="${1 == 1}" :range="_, y : ns" :text="${x}">o</a>`, `<a>d1</a><a>d1</a>`},
+		tc{`<a :with="k := ${x}" :range="_, x : ns" :text="${k}|${x}">o</a>`, `<a>d|&lt;nil&gt;</a><a>d|1</a>`},
+		tc{`<i :if="${1 == 2}">n</i><a :with="x := ${x + '2'}; q := ${x}" :else :text="${x}|${q}">o</a>`, `<a>d2|d</a>`},
+		tc{`<p :define="rec"><u :with="x := ${x + '+'}" :if="${len(x) < 4}" :insert="rec">o</u><s :else :text="${x}">o</s></p><div :insert="rec">o</div>`, `<div><u><u><s>d++</s></u></u></div>`}) // (the third u binds "d+++", fails its condition; its binding is not visible to the sibling s)
 	nFixed := len(tcs)
 	var recData []val
 	// a binding made by `with` inside a fragment that re-enters ITSELF: after the inner instance has evaluated the same
